@@ -17,7 +17,12 @@ RULE = ("captions of 1-3 lines whose text is cut into pieces, with 0-4 flat (non
         "stack; (webvtt) output tokenised independently: i/b/u properly nested and flags equal; "
         "(readers) STYLE nodes of every caption any reader returns for the repository corpus and "
         "for generated documents match like brackets. Non-trivial: at least one non-empty span "
-        "that does not cover the whole caption.")
+        "that does not cover the whole caption. "
+        "(webvtt-classes) spans and captions that are italic / bold / underlined through named "
+        "styles of the set ('class' / 'classes' references, ids with capitals, inheritance, "
+        "true and false values, the same class used repeatedly, inline keys on top), written by "
+        "a fresh WebVTTWriter or one that wrote - or failed to write - a set in which the same "
+        "names mean other styles; reference resolution: classes in list order, own keys last.")
 ASSUMPTIONS = [
     "spans are flat and balanced on the input side; nodes carry no layouts",
     "DFXP carries italics only (bold / underline are judged for SAMI and WebVTT targets)",
@@ -291,8 +296,134 @@ def check_scc(case, rec):
         rec.label("has-italics")
 
 
+# ------------------------------------------------------------------ spans styled through named styles
+
+CLASS_IDS = ["narrator", "Italic", "boldUnderline", "S1", "loud", "x"]
+
+
+def classes_strategy(tier):
+    """Sets whose spans are italic / bold / underlined through named styles of the caption set
+    (what DFXPReader returns for <span style="a b">), optionally with inline keys as well."""
+    flag = st.sampled_from([True, True, False])
+
+    @st.composite
+    def build(draw):
+        ids = draw(st.lists(st.sampled_from(CLASS_IDS), min_size=1, max_size=4, unique=True))
+        styles = {}
+        for k, sid in enumerate(ids):
+            d = {key: draw(flag) for key in draw(st.lists(st.sampled_from(KEYS), min_size=0, max_size=3, unique=True))}
+            if k and draw(st.integers(0, 3)) == 0:
+                d["class"] = ids[draw(st.integers(0, k - 1))]      # inherits from an earlier style
+            if not d:
+                d = {"color": "red"}
+            styles[sid] = d
+        cues = []
+        for ci in range(draw(st.integers(1, 3))):
+            nodes = []
+            for si in range(draw(st.integers(1, 4))):
+                c = {}
+                how = draw(st.integers(0, 3))
+                if how == 0:
+                    c["class"] = draw(st.sampled_from(ids))
+                elif how == 1:
+                    c["classes"] = draw(st.lists(st.sampled_from(ids), min_size=1, max_size=3))
+                elif how == 2:
+                    c["class"] = ids[0]         # the same class again and again
+                for key in draw(st.lists(st.sampled_from(KEYS), min_size=0 if c else 1, max_size=2, unique=True)):
+                    c[key] = True
+                nodes += [{"t": f"p{ci}{si}"}, {"s": True, "c": c}, {"t": f"s{ci}{si}"}, {"s": False, "c": c}]
+            cstyle = {}
+            if draw(st.integers(0, 3)) == 0:
+                cstyle = {"class": draw(st.sampled_from(ids))}
+            cues.append({"start": (ci + 1) * 2000000, "end": (ci + 1) * 2000000 + 1500000, "nodes": nodes,
+                         "style": cstyle, "layout": None})
+        # the writer object may have a past: another set in which the same names mean other
+        # styles, whose write fails part-way (absolute layout, no video size)
+        past = draw(st.sampled_from([None, None, "ok", "fails"]))
+        return {"set": {"langs": [{"code": "en-US", "layout": None, "cues": cues}], "styles": styles,
+                        "layout": None}, "past": past}
+    return build()
+
+
+def _resolve(style, styles, depth=0):
+    """Reference resolution: classes in list order, each resolved recursively, own keys last."""
+    out = {}
+    if depth > 8:
+        return out
+    names = style.get("classes") if "classes" in style else ([style["class"]] if "class" in style else [])
+    for n in names:
+        out.update(_resolve(styles.get(n, {}), styles, depth + 1))
+    out.update(style)
+    return out
+
+
+def check_classes(case, rec):
+    m = case["set"]
+    styles = m["styles"]
+    cues = m["langs"][0]["cues"]
+    writer = WebVTTWriter()
+    if case.get("past"):
+        import copy
+        prev = copy.deepcopy(m)
+        for sid, d in prev["styles"].items():
+            for key in KEYS:
+                d[key] = not d.get(key)
+        if case["past"] == "fails":
+            prev["langs"][0]["cues"].append({
+                "start": 9000000, "end": 9500000, "nodes": [{"t": "late"}], "style": {},
+                "layout": {"origin": [[10, "px"], [10, "px"]], "extent": None, "padding": None, "align": None,
+                           "webvtt": None}})
+        try:
+            writer.write(model.to_pycaption(prev))
+        except Exception:  # noqa  (the past is not what is being judged)
+            rec.label("past-write-failed")
+        rec.label("reused-writer")
+    cs = model.to_pycaption(m)
+    with must("WebVTTWriter.write"):
+        out = writer.write(cs)
+    try:
+        got = P.parse_webvtt(out)
+    except P.RefParseError as e:
+        raise Violation(f"webvtt output not well-formed: {e}")
+    require(len(got) == len(cues), lambda: f"webvtt: {len(got)} cues for {len(cues)} captions")
+    tagmap = {"i": 0, "b": 1, "u": 2}
+    for i, (g, cue) in enumerate(zip(got, cues)):
+        try:
+            chars = P.vtt_styled_chars(g["lines"])
+        except P.RefParseError as e:
+            raise Violation(f"webvtt: cue {i} tags not properly nested: {e}; payload {g['lines']!r}")
+        gl = []
+        for ch, open_tags in chars:
+            if not ch.isspace():
+                f = [False, False, False]
+                for t in open_tags:
+                    if t in tagmap:
+                        f[tagmap[t]] = True
+                gl.append((ch, tuple(f)))
+        base = _resolve(cue["style"], styles)
+        e = []
+        stack = []
+        for n in cue["nodes"]:
+            if "s" in n:
+                if n["s"]:
+                    stack.append(_resolve(n["c"], styles))
+                elif stack:
+                    stack.pop()
+            elif "t" in n:
+                f = tuple(bool(base.get(k)) or any(c.get(k) for c in stack) for k in KEYS)
+                e += [(ch, f) for ch in n["t"] if not ch.isspace()]
+        require([c for c, _ in gl] == [c for c, _ in e], lambda: f"webvtt: cue {i} characters changed: {g['lines']!r}")
+        for k, ((ch, gf), (_, ef)) in enumerate(zip(gl, e)):
+            require(gf == ef, lambda: f"webvtt: cue {i} char #{k} {ch!r}: tags give {dict(zip(KEYS, gf))}, the "
+                                      f"named styles {styles} give {dict(zip(KEYS, ef))}; nodes {cue['nodes']}; "
+                                      f"payload {g['lines']!r}")
+    rec.nontrivial(True)
+    rec.label("classes")
+
+
 def subchecks(tier):
     return [
+        Sub("webvtt-classes", check_classes, strategy=classes_strategy, examples=(4000, 100000), min_per_shard=200),
         Sub("roundtrip", check_roundtrip, strategy=set_strategy, examples=(3000, 100000), min_per_shard=100),
         Sub("webvtt", check_webvtt, strategy=set_strategy, examples=(6000, 200000), min_per_shard=300),
         Sub("corpus-readers", check_corpus, chunks=corpus_chunks, expand=corpus_expand, exhaustive=True),
